@@ -15,4 +15,5 @@ open Emboss.Pipeline
 #print axioms C16_find_and_read_total
 #print axioms C16_unreadable_file_group
 #print axioms C16_embossc_exit
+#print axioms C16_embossc_end_to_end
 #print axioms C16_parse_error_group
